@@ -41,3 +41,53 @@ Example C19_swap_twice_example :
   | None => false end = true.
 Proof. vm_compute. reflexivity. Qed.
 Print Assumptions C19_swap_twice_example.
+
+(* ---- any number of masters and axes: the variation model reproduces every master at its location ---- *)
+From U2F Require Import Interp.VarModel Interp.VarModelProofs Interp.GlyphMasters Interp.GlyphMastersProofs.
+
+Theorem C19_every_master_reproduced_at_its_location : forall ms rows,
+  rows_ok (length ms) rows = true ->
+  forall i m r, nth_error ms i = Some m -> nth_error rows i = Some r ->
+  interpolate r (get_deltas ms rows []) = m.
+Proof. exact model_reproduces_masters. Qed.
+Print Assumptions C19_every_master_reproduced_at_its_location.
+
+(* two masters on one axis: the model IS the linear blend of Interp/Instance.v *)
+Theorem C19_two_master_model_is_the_blend : forall m0 m1 t : Qc,
+  interpolate [1; t]%Qc (get_deltas [m0; m1] [[1; 0]; [1; 1]]%Qc []) = (m0 + t * (m1 - m0))%Qc.
+Proof. exact two_master_instance. Qed.
+Print Assumptions C19_two_master_model_is_the_blend.
+
+(* ---- which sources take part in a glyph's model (collect_glyph_masters) ---- *)
+Theorem C19_glyph_masters_do_not_depend_on_source_order : forall srcs srcs',
+  Permutation srcs srcs' ->
+  match collect srcs, collect srcs' with
+  | Some a, Some b => Permutation a b
+  | None, None => True
+  | _, _ => False
+  end.
+Proof. exact collect_order_independent. Qed.
+Print Assumptions C19_glyph_masters_do_not_depend_on_source_order.
+
+Theorem C19_default_source_always_takes_part : forall srcs kept,
+  collect srcs = Some kept -> forall s, In s srcs -> s_default s = true -> In s kept.
+Proof. exact default_kept. Qed.
+Print Assumptions C19_default_source_always_takes_part.
+
+(* a glyph that is empty in the default source (a space) keeps all its masters, each with its own advance *)
+Theorem C19_empty_glyph_keeps_all_masters : forall srcs kept,
+  collect srcs = Some kept -> forall d s,
+  In d srcs -> s_default d = true -> s_glyph d = Empty -> In s srcs -> s_glyph s = Empty -> In s kept.
+Proof. exact empty_kept_when_default_empty. Qed.
+Print Assumptions C19_empty_glyph_keeps_all_masters.
+
+Theorem C19_outlined_master_always_takes_part : forall srcs kept,
+  collect srcs = Some kept -> forall s, In s srcs -> s_glyph s = Outlined -> In s kept.
+Proof. exact outlined_kept. Qed.
+Print Assumptions C19_outlined_master_always_takes_part.
+
+Example C19_single_pass_depends_on_source_order :
+  let l := mkSrc 100 false Empty in let r := mkSrc 400 true Empty in let b := mkSrc 700 false Empty in
+  collect [l; r; b] = Some [l; r; b] /\ collect_single_pass false [l; r; b] = [r; b] /\ collect_single_pass false [r; l; b] = [r; l; b].
+Proof. exact single_pass_order_dependent. Qed.
+Print Assumptions C19_single_pass_depends_on_source_order.
